@@ -42,6 +42,8 @@ OpPool == {
   MkOp("add", <<<<126, 49>>>>, <<>>, IntV(9)), MkOp("replace", <<<<126, 49>>>>, <<>>, VArr), MkOp("add", <<<<47>>>>, <<>>, IntV(8)),
   MkOp("copy", <<<<126, 48, 49>>>>, <<<<126, 49>>>>, Null),
   \* null is a value like any other (not "no value given")
+  \* the root itself produced by an operation (a later operation then works inside what the first one put there)
+  MkOp("add", <<>>, <<>>, VObj), MkOp("replace", <<>>, <<>>, Obj(<<X>>, <<Arr(<<>>)>>)),
   \* a member name that reads as a percent-encoded character (it is not one unless the caller asks for URI decoding)
   MkOp("add", <<<<37, 52, 49>>>>, <<>>, IntV(4)), MkOp("add", <<X, <<37, 50, 53>>>>, <<>>, IntV(5)),
   MkOp("add", <<X>>, <<>>, Null), MkOp("test", <<X>>, <<>>, Null), MkOp("replace", <<R, N0>>, <<>>, Null), MkOp("addne", <<W>>, <<>>, Null) }
